@@ -11,9 +11,9 @@ open Spec Det
 
 /-! ### `resolve_first` on a path rendered by one of the templates -/
 
-theorem exclEarlier_tplOk (e : Env) (pc : PathConf) (hwf : pathConfOk e pc = true) :
+theorem exclEarlier_tplOk (e : Env) (pc : PathConf) (hwf : pathTplsOk e pc = true) :
     ∀ lt ∈ pc.templates, pathTplOk e lt.2 = true :=
-  fun lt h => confOk_tpl e pc hwf lt.1 lt.2 h
+  fun lt h => pathTplsOk_tpl e pc hwf lt.1 lt.2 h
 
 /-- every earlier template is skipped, the Sid's own template answers -/
 theorem resolveFirstGo_own (e : Env) (syms : List Str) (cd : Bool) (ty : Str) (t : Template)
